@@ -175,8 +175,13 @@ func (c02) Generate(seed uint64, tier string, index int) any {
 				}
 			}
 			f.StrongLen = []int{16, 16, 16, 16, 2, 4, 8, 12}[g.R.Intn(8)]
-			bl := int64(f.BlockLen)
 			bsz := int64(len(f.Basis.Bytes()))
+			if f.BlockLen < 700 && bsz > 40000 {
+				f.BlockLen = 700 // a tiny block length over a large basis is only a very long checksum list
+			}
+			bl := int64(f.BlockLen)
+			// wire volume: the checksum list travels too
+			vol += bsz / bl * int64(4+f.StrongLen)
 			if bsz >= 3*bl && f.Basis != f.Target {
 				b := *f.Basis
 				b.Edits = append([]fstree.Edit(nil), b.Edits...)
@@ -293,6 +298,13 @@ func c02Sender(t *testing.T, sc *C02Scenario, job *Job, res *Result) {
 		if len(out.Tape) <= 300000 {
 			sc.Tr.Tape = out.Tape
 		}
+	}
+	if out.Outcome == kernel.StepBudget {
+		// the harness's own step cap, not the code's behaviour: a minimised
+		// candidate or a hand-written replay may ask for millions of one-byte
+		// deliveries
+		res.Inconclusive = "step budget of the simulator exhausted: " + out.Pending
+		return
 	}
 	if out.Outcome == kernel.Deadlock {
 		fail("deadlock", "deadlock:sender", out.Pending+" "+out.Panic)
@@ -526,6 +538,10 @@ func c02Receiver(t *testing.T, sc *C02Scenario, job *Job, res *Result) {
 	}
 	if out.Panic != "" {
 		fail("panic", panicSignature(out.Panic), out.Panic)
+		return
+	}
+	if out.Outcome == kernel.StepBudget {
+		res.Inconclusive = "step budget of the simulator exhausted: " + out.Pending
 		return
 	}
 	if out.Outcome == kernel.Deadlock {
